@@ -138,7 +138,9 @@ def build_spec(c):
         if m == "skygrid" and c.get("temperature"):
             coal["temperature"] = c["temperature"]
         spec.append(coal)
-        targets = ["coal"]
+        # a joint made of the coalescent alone: its samples must not be added up
+        spec.append({"id": "jointc", "type": "JointDistributionModel", "distributions": ["coal"]})
+        targets = ["coal", "jointc"]
         if c["gmrf"] and theta_n >= 2:
             spec.append({"id": "gmrf", "type": "GMRF", "x": "theta", "precision": tt.P("gmrf.precision", [0.7])})
             spec.append({"id": "joint", "type": "JointDistributionModel", "distributions": ["coal", "gmrf"]})
